@@ -1,5 +1,6 @@
 import Lean.Data.Json
 import AFModel.ParEval
+import AFModel.ParFair
 
 /-! Driver for C14: runs the pool state machines of `AFModel/ParEval.lean` on a schedule.
 
@@ -8,7 +9,10 @@ requests
   successive `map` calls on one pool → per batch: finished, yielded, raised, leftover, per-worker log,
   and what the pinned commit would have yielded (`legacy_*`, arrival order)
 * `{"p":"C14","q":"run_jobs","P":workers,"fuel":n,"js":[…],"sched":[±actor…],"count_twice":b,"poll_empty":b}`
-  (a negative schedule entry `-a` = actor `a` with a stale `empty()` answer) -/
+  (a negative schedule entry `-a` = actor `a` with a stale `empty()` answer)
+* `{"p":"C14","q":"fair","P":n,"js":[…],"sched":[actor…]}` one `map` call on a fresh pool along exactly the given
+  schedule (no continuation) → finished, number of complete fair rounds of the schedule, the round bound of
+  `map_terminates_under_every_fair_schedule`, the variant before and after -/
 
 open Lean (Json)
 open AF.ParEval
@@ -83,6 +87,19 @@ def handleC14 (j : Json) : Except String Json := do
       ("in_flight", natJ (rpipes s.ws).length),
       ("work_left", natJ s.mu),
       ("count", natJ s.count)])
+  | "fair" =>
+    let js ← (← listOf j "js").mapM resOfJson
+    let sched ← (← listOf j "sched").mapM (·.getNat?)
+    let s := mapExact (newPool P) js sched
+    pure (Json.mkObj [
+      ("finished", Json.bool s.finished),
+      ("fair_rounds", natJ (fairRounds P sched)),
+      ("bound", natJ (mapRoundBound P js.length)),
+      ("phi_start", natJ (initMap (newPool P) js).phi),
+      ("phi_end", natJ s.phi),
+      ("yielded", Json.arr (s.output.yielded.map natJ).toArray),
+      ("raised", optNatJ s.output.raised),
+      ("leftover", natJ (leftover s.ws))])
   | s => throw s!"C14: unknown query {s}"
 
 end AF.Driver
